@@ -434,6 +434,21 @@ Proof.
 Qed.
 Print Assumptions every_queued_message_is_weighed.
 
+(** ---- seventh round ---- *)
+
+(** The quorum decision is taken over ALL evidence stored on the message: attestMessageWrapper hands
+    msg.GetEvidence() to VerifyEvidence as it is (the translator refuses any filtering or re-slicing in front of the
+    call, e.g. by the transaction hash the relayer reported — seeded change C04-Q), which is what [att_step] weighs. *)
+Theorem quorum_is_taken_over_all_stored_evidence :
+  Gen.C04.attest_wrapper_evidence_source = "msg.GetEvidence()"%string /\
+  forall (K : Type) (keqb : K -> K -> bool) (h : Z -> Z -> K) (s : @EvidenceHistory.att_state) sn ord,
+    EvidenceHistory.as_won s = None ->
+    EvidenceHistory.as_won (@EvidenceHistory.att_step K keqb h s (EvidenceHistory.AoProcess sn ord)) =
+    match verify_evidence keqb (code_key h) ord sn (map EvidenceBytes.ev_of (EvidenceHistory.as_evs s)) with
+    | Winner w => Some w | _ => None end.
+Proof. exact (conj eq_refl (@EvidenceHistoryProofs.process_weighs_all)). Qed.
+Print Assumptions quorum_is_taken_over_all_stored_evidence.
+
 
 (* --- source translation tie (GenFn) --- *)
 (* The Go function bodies named below are re-translated from the source on every check
